@@ -1,4 +1,113 @@
-//! native validation of the oracles of this family against the repository's vectors
+//! native validation of the oracles of this family (ARIA RFC 5794, Camellia RFC 3713) against the repository's
+//! vectors and the RFCs' own appendix vectors
 #![allow(unused)]
 use crate::T;
-pub fn run(repo: &str, t: &mut T) {}
+use refmodels::{aria, camellia};
+
+fn unhex(s: &str) -> Vec<u8> {
+    (0..s.len() / 2).map(|i| u8::from_str_radix(&s[2 * i..2 * i + 2], 16).unwrap()).collect()
+}
+fn b16(b: &[u8]) -> [u8; 16] {
+    b.try_into().unwrap()
+}
+
+pub fn run(repo: &str, t: &mut T) {
+    // ---- Camellia: NESSIE vectors shipped with the crate (every .blb under camellia/tests/data)
+    let cenc = |k: &[u8], p: &[u8]| camellia::encrypt(k, &b16(p)).to_vec();
+    let cdec = |k: &[u8], c: &[u8]| camellia::decrypt(k, &b16(c)).to_vec();
+    t.kat(repo, "camellia/tests/data/camellia128.blb", "camellia128", &cenc, &cdec);
+    t.kat(repo, "camellia/tests/data/camellia192.blb", "camellia192", &cenc, &cdec);
+    t.kat(repo, "camellia/tests/data/camellia256.blb", "camellia256", &cenc, &cdec);
+    // ---- Camellia: RFC 3713 Appendix A
+    let pt = unhex("0123456789abcdeffedcba9876543210");
+    for (name, key, ct) in [
+        ("camellia128 rfc3713 A", "0123456789abcdeffedcba9876543210", "67673138549669730857065648eabe43"),
+        ("camellia192 rfc3713 A", "0123456789abcdeffedcba98765432100011223344556677", "b4993401b3e996f84ee5cee7d79b09b9"),
+        (
+            "camellia256 rfc3713 A",
+            "0123456789abcdeffedcba987654321000112233445566778899aabbccddeeff",
+            "9acc237dff16d76c20ef7c919e3a7509",
+        ),
+    ] {
+        let (k, c) = (unhex(key), unhex(ct));
+        t.check(name, cenc(&k, &pt) == c && cdec(&k, &c) == pt);
+    }
+    // typed wrappers agree with the slice API
+    {
+        let k = unhex("0123456789abcdeffedcba987654321000112233445566778899aabbccddeeff");
+        let p = b16(&pt);
+        let ok = camellia::encrypt128(&k[..16].try_into().unwrap(), &p) == camellia::encrypt(&k[..16], &p)
+            && camellia::encrypt192(&k[..24].try_into().unwrap(), &p) == camellia::encrypt(&k[..24], &p)
+            && camellia::encrypt256(&k[..32].try_into().unwrap(), &p) == camellia::encrypt(&k[..32], &p)
+            && camellia::decrypt128(&k[..16].try_into().unwrap(), &p) == camellia::decrypt(&k[..16], &p)
+            && camellia::decrypt192(&k[..24].try_into().unwrap(), &p) == camellia::decrypt(&k[..24], &p)
+            && camellia::decrypt256(&k[..32].try_into().unwrap(), &p) == camellia::decrypt(&k[..32], &p);
+        t.check("camellia typed wrappers", ok);
+    }
+    // derived S-boxes: spot values of RFC 3713 2.4.2 tables (SBOX2[0]=224, SBOX3[0]=56, SBOX4[0]=112, SBOX4[1]=44, SBOX2[255]=61, SBOX3[255]=79)
+    t.check(
+        "camellia sbox2-4 derivation",
+        camellia::sbox2(0) == 224
+            && camellia::sbox3(0) == 56
+            && camellia::sbox4(0) == 112
+            && camellia::sbox4(1) == 44
+            && camellia::sbox2(255) == 61
+            && camellia::sbox3(255) == 79
+            && camellia::sbox4(255) == 158,
+    );
+
+    // ---- ARIA: the crate ships no .blb files (aria/tests/data does not exist); RFC 5794 Appendix A vectors
+    let aenc = |k: &[u8], p: &[u8]| aria::encrypt(k, &b16(p)).to_vec();
+    let adec = |k: &[u8], c: &[u8]| aria::decrypt(k, &b16(c)).to_vec();
+    let pt = unhex("00112233445566778899aabbccddeeff");
+    for (name, key, ct) in [
+        ("aria128 rfc5794 A.1", "000102030405060708090a0b0c0d0e0f", "d718fbd6ab644c739da95f3be6451778"),
+        ("aria192 rfc5794 A.2", "000102030405060708090a0b0c0d0e0f1011121314151617", "26449c1805dbe7aa25a468ce263a9e79"),
+        (
+            "aria256 rfc5794 A.3",
+            "000102030405060708090a0b0c0d0e0f101112131415161718191a1b1c1d1e1f",
+            "f92bd7c79fb72e2f2b8f80c1972d24fc",
+        ),
+    ] {
+        let (k, c) = (unhex(key), unhex(ct));
+        t.check(name, aenc(&k, &pt) == c && adec(&k, &c) == pt);
+    }
+    // RFC 5794 A.1 also lists the round-key-independent intermediate: check generated S-boxes against the RFC's
+    // printed table corners (2.4.2): SB1[0]=63 SB1[ff]=16, SB2[0..4]=e2 4e 54 fc, SB3[0]=52 SB3[ff]=7d, SB4[0]=30 SB4[ff]=60
+    t.check(
+        "aria generated sboxes",
+        aria::SB1[0] == 0x63
+            && aria::SB1[255] == 0x16
+            && aria::SB1[0x53] == 0xed
+            && aria::SB2[0] == 0xe2
+            && aria::SB2[1] == 0x4e
+            && aria::SB2[2] == 0x54
+            && aria::SB2[3] == 0xfc
+            && aria::SB3[0] == 0x52
+            && aria::SB3[255] == 0x7d
+            && aria::SB4[0] == 0x30
+            && aria::SB4[255] == 0x60
+            && (0..256).all(|x| aria::SB3[aria::SB1[x] as usize] as usize == x && aria::SB4[aria::SB2[x] as usize] as usize == x),
+    );
+    // diffusion layer is an involution; SL2 inverts SL1
+    {
+        let mut ok = true;
+        let mut x: u128 = 0x0123456789abcdef_0f1e2d3c4b5a6978;
+        for _ in 0..64 {
+            ok &= aria::a(aria::a(x)) == x && aria::sl2(aria::sl1(x)) == x && aria::sl1(aria::sl2(x)) == x;
+            x = x.wrapping_mul(0x9e3779b97f4a7c15_f39cc0605cedc835).rotate_left(17) ^ 0x5555;
+        }
+        t.check("aria A involution, SL2=SL1^-1", ok);
+    }
+    {
+        let k = unhex("000102030405060708090a0b0c0d0e0f101112131415161718191a1b1c1d1e1f");
+        let p = b16(&pt);
+        let ok = aria::encrypt128(&k[..16].try_into().unwrap(), &p) == aria::encrypt(&k[..16], &p)
+            && aria::encrypt192(&k[..24].try_into().unwrap(), &p) == aria::encrypt(&k[..24], &p)
+            && aria::encrypt256(&k[..32].try_into().unwrap(), &p) == aria::encrypt(&k[..32], &p)
+            && aria::decrypt128(&k[..16].try_into().unwrap(), &p) == aria::decrypt(&k[..16], &p)
+            && aria::decrypt192(&k[..24].try_into().unwrap(), &p) == aria::decrypt(&k[..24], &p)
+            && aria::decrypt256(&k[..32].try_into().unwrap(), &p) == aria::decrypt(&k[..32], &p);
+        t.check("aria typed wrappers", ok);
+    }
+}
